@@ -4,16 +4,17 @@
 //! with the verified multi-precision interval evaluator at sample states, and record what the public
 //! State API reports for every derivative at the same states.
 use feos::ResidualModel;
-use feos_core::{Contributions, ReferenceSystem, State};
-use feos_verif::configs::{self, Config, RState, Rng};
+use feos_core::{Contributions, ReferenceSystem, Residual, State};
+use feos_verif::configs::{self, Config, ConfigG, RState, Rng};
 use feos_verif::emit;
+use feos_verif::functionals;
 use feos_verif::trace;
 use ndarray::Array1;
 use quantity::{Moles, Temperature, Volume};
 use serde_json::{json, Value};
 use std::sync::Arc;
 
-pub fn mk_state(model: &Arc<ResidualModel>, s: &RState) -> Option<State<ResidualModel>> {
+pub fn mk_state<R: Residual>(model: &Arc<R>, s: &RState) -> Option<State<R>> {
     State::new_nvt(
         model,
         Temperature::from_reduced(s.t),
@@ -25,7 +26,7 @@ pub fn mk_state(model: &Arc<ResidualModel>, s: &RState) -> Option<State<Residual
 
 /// what the State API reports, expressed as partial derivatives of A^res(T,V,N) in reduced units.
 /// directions: 0 = T, 1 = V, 2+k = N_k
-fn api_jet(model: &Arc<ResidualModel>, s: &RState) -> Option<Value> {
+fn api_jet<R: Residual>(model: &Arc<R>, s: &RState) -> Option<Value> {
     let st = mk_state(model, s)?;
     let nc = s.n.len();
     let nd = nc + 2;
@@ -83,7 +84,7 @@ fn api_jet(model: &Arc<ResidualModel>, s: &RState) -> Option<Value> {
 
 /// central finite differences on the public API around a state (the search oracle of DESIGN.md section 4):
 /// each reported derivative vs. the numerical derivative of the next-lower-order quantity.
-fn fd_search(model: &Arc<ResidualModel>, s: &RState, one_sided_t: bool) -> Vec<Value> {
+fn fd_search<R: Residual>(model: &Arc<R>, s: &RState, one_sided_t: bool) -> Vec<Value> {
     // a derivative is flagged only if it disagrees with the central difference for EVERY step size
     // (truncation error dominates for large steps, round-off noise for small ones)
     let mut best: std::collections::BTreeMap<String, (f64, Value)> = std::collections::BTreeMap::new();
@@ -110,7 +111,7 @@ fn fd_search(model: &Arc<ResidualModel>, s: &RState, one_sided_t: bool) -> Vec<V
 }
 
 /// (quantity, mismatch / tolerance, description) of every derivative outside its tolerance for step `h`
-fn fd_search_h(model: &Arc<ResidualModel>, s: &RState, h: f64, one_sided_t: bool) -> Vec<(String, f64, Value)> {
+fn fd_search_h<R: Residual>(model: &Arc<R>, s: &RState, h: f64, one_sided_t: bool) -> Vec<(String, f64, Value)> {
     let out = std::cell::RefCell::new(Vec::new());
     let nc = s.n.len();
     let nd = nc + 2;
@@ -265,24 +266,20 @@ fn inputs_def(name: &str, rows: &[(RState, Vec<f64>)]) -> String {
     format!("Definition {} : list (list (Z * Z)) := [{}].\n", name, rows.join(";\n "))
 }
 
-pub fn run(out_dir: &str, tier: &str, seed: u64, only: Option<String>, search_n: Option<usize>) -> Value {
-    let full = tier == "thorough";
-    let cfgs: Vec<Config> = configs::all(full || only.is_some())
-        .into_iter()
-        .chain(configs::literal())
-        .filter(|c| match &only {
-            Some(o) => &c.name == o,
-            None => full || c.core,
-        })
-        .collect();
-    let k_states = if full { 4 } else { 2 };
-    let k_third = if full { 2 } else { 1 };
-    let k_fd = search_n.unwrap_or(if full { 40 } else { 6 });
-    // size limits (instructions of P) up to which orders 2 and 3 are enclosed (cost grows ~9x / ~27x)
-    let (lim2, lim3) = if full { (2500, 900) } else { (1500, 450) };
-    let prec = 100;
-    let mut results = Vec::new();
-    for c in &cfgs {
+struct Par<'a> {
+    out_dir: &'a str,
+    seed: u64,
+    k_states: usize,
+    k_third: usize,
+    k_fd: usize,
+    lim2: usize,
+    lim3: usize,
+    prec: i64,
+}
+
+/// one configuration, for any model implementing `Residual` (equations of state and functionals used as bulk models)
+fn one<R: Residual>(c: &ConfigG<R>, par: &Par) -> Value {
+    let (out_dir, seed, k_states, k_third, k_fd, lim2, lim3, prec) = (par.out_dir, par.seed, par.k_states, par.k_third, par.k_fd, par.lim2, par.lim3, par.prec);
         let mut rng = Rng(seed ^ trace::fxhash(&c.name) ^ 0xC01);
         let sa = configs::sample_state(c, &mut rng);
         let mut sb = configs::sample_state(c, &mut rng);
@@ -347,7 +344,7 @@ pub fn run(out_dir: &str, tier: &str, seed: u64, only: Option<String>, search_n:
                 fd_fail.extend(f.into_iter().take(3));
             }
         }
-        results.push(json!({
+        json!({
             "name": c.name, "ncomp": c.ncomp, "nvars": c.ncomp + 2,
             "ninstr": ninstr, "ninstr_k": [ninstr, t2.prog.instrs.len(), t3.prog.instrs.len()],
             "nconsts": t1.prog.consts.len(), "outs": t1.prog.outs,
@@ -358,27 +355,81 @@ pub fn run(out_dir: &str, tier: &str, seed: u64, only: Option<String>, search_n:
             "states": st1.iter().map(|(s, _)| s.vars()).collect::<Vec<_>>(),
             "api": api, "third_states": st3.len(),
             "fd": {"states": fd_n, "failures": fd_fail},
-        }));
-    }
-    // quick tier: the configurations left to the thorough tier (large programs) still get the finite-difference oracle on
-    // the public API, so that a change confined to one of them is not invisible to the per-change check
-    let mut oracle_only = Vec::new();
-    if !full && only.is_none() {
-        for c in configs::all(true).into_iter().chain(configs::literal()).filter(|c| !c.core) {
-            let mut rng = Rng(seed ^ trace::fxhash(&c.name) ^ 0xC01);
-            let mut fd_fail = Vec::new();
-            let n = k_fd.min(4);
-            for _ in 0..n {
-                let s = configs::sample_state(&c, &mut rng);
-                let f = fd_search(&c.model, &s, c.special_t.contains(&s.t));
-                if fd_fail.len() < 5 {
-                    fd_fail.extend(f.into_iter().take(3));
-                }
-            }
-            oracle_only.push(json!({"name": c.name, "fd": {"states": n, "failures": fd_fail}}));
+        })
+}
+
+/// finite-difference oracle only
+fn one_oracle<R: Residual>(c: &ConfigG<R>, seed: u64, n: usize) -> Value {
+    let mut rng = Rng(seed ^ trace::fxhash(&c.name) ^ 0xC01);
+    let mut fd_fail = Vec::new();
+    for _ in 0..n {
+        let s = configs::sample_state(c, &mut rng);
+        let f = fd_search(&c.model, &s, c.special_t.contains(&s.t));
+        if fd_fail.len() < 5 {
+            fd_fail.extend(f.into_iter().take(3));
         }
     }
-    json!({"property": "C01", "tier": tier, "seed": seed, "prec": prec, "configs": results, "oracle_only": oracle_only})
+    json!({"name": c.name, "fd": {"states": n, "failures": fd_fail}})
+}
+
+pub fn run(out_dir: &str, tier: &str, seed: u64, only: Option<String>, search_n: Option<usize>) -> Value {
+    let full = tier == "thorough";
+    let cfgs: Vec<Config> = configs::all(full || only.is_some())
+        .into_iter()
+        .chain(configs::literal())
+        .filter(|c| match &only {
+            Some(o) => &c.name == o,
+            None => full || c.core,
+        })
+        .collect();
+    // size limits (instructions of P) up to which orders 2 and 3 are enclosed (cost grows ~9x / ~27x)
+    let (lim2, lim3) = if full { (2500, 900) } else { (1500, 450) };
+    let par = Par {
+        out_dir,
+        seed,
+        k_states: if full { 4 } else { 2 },
+        k_third: if full { 2 } else { 1 },
+        k_fd: search_n.unwrap_or(if full { 40 } else { 6 }),
+        lim2,
+        lim3,
+        prec: 100,
+    };
+    let mut results = Vec::new();
+    for c in &cfgs {
+        results.push(one(c, &par));
+    }
+    // Helmholtz energy functionals used as bulk models (the property quantifies over "every *Functional")
+    let mut oracle_only = Vec::new();
+    let sel = |n: &str, core: bool| match &only {
+        Some(o) => o == n,
+        None => full || core,
+    };
+    macro_rules! functional {
+        ($c:expr) => {{
+            let c = $c;
+            if sel(&c.name, c.core) {
+                results.push(one(&c, &par));
+            } else if only.is_none() {
+                oracle_only.push(one_oracle(&c, seed, par.k_fd.min(4)));
+            }
+        }};
+    }
+    functional!(functionals::pcsaft("fn_pcsaft_wb_propane_butane_kij", 0, true));
+    functional!(functionals::pcsaft("fn_pcsaft_kr_water_methanol", 1, false));
+    functional!(functionals::pcsaft("fn_pcsaft_wb_acetone_butanone", 2, true));
+    functional!(functionals::pcsaft("fn_pcsaft_wb_water", 3, true));
+    functional!(functionals::pcsaft("fn_pcsaft_aswb_propane", 4, false));
+    functional!(functionals::gc_pcsaft("fn_gcpcsaft_propanol_ethanol", true));
+    functional!(functionals::pets("fn_pets2", true));
+    functional!(functionals::saftvrqmie("fn_saftvrqmie_h2", false));
+    // quick tier: the configurations left to the thorough tier (large programs) still get the finite-difference oracle on
+    // the public API, so that a change confined to one of them is not invisible to the per-change check
+    if !full && only.is_none() {
+        for c in configs::all(true).into_iter().chain(configs::literal()).filter(|c| !c.core) {
+            oracle_only.push(one_oracle(&c, seed, par.k_fd.min(4)));
+        }
+    }
+    json!({"property": "C01", "tier": tier, "seed": seed, "prec": par.prec, "configs": results, "oracle_only": oracle_only})
 }
 
 fn main() {
